@@ -434,3 +434,120 @@ Section StreamShape.
     - unfold fset. simpl. rewrite bytes_eqb_refl. reflexivity.
   Qed.
 End StreamShape.
+
+(* ---------- the bytes: the file mode sender's chunks replay to the source files ---------- *)
+Lemma aset_same_id : forall (A : Type) (k : bytes) (a : A) l,
+    alookup bytes_eqb k l = Some a -> aset bytes_eqb k a l = l.
+Proof.
+  induction l as [|[k1 a1] l IH]; simpl; intro H; [discriminate|].
+  destruct (bytes_eqb k k1) eqn:E.
+  - injection H as H; subst. apply bytes_eqb_eq in E. subst. reflexivity.
+  - rewrite IH; auto.
+Qed.
+
+Section FileBytes.
+  Variable D : Type.
+  Variable dapp : D -> D -> D.
+  Variable dlen : D -> N.
+  Variable dsub : D -> N -> N -> D.
+  (* the laws of byte strings the statement needs (proved for [bytes] below) *)
+  Hypothesis dsub_app : forall f a n m, a + n + m <= dlen f -> dapp (dsub f a n) (dsub f (a + n) m) = dsub f a (n + m).
+  Variable cs : N.
+  Hypothesis cs_pos : 0 < cs.
+  Notation chunk := (chunk D).
+
+  (* replay only looks at the path, the file chunk id and the data *)
+  Definition proj (c : chunk) : bytes * N * D := (c_path (fst c), c_fcid (fst c), snd c).
+  Fixpoint replay_p (files : dir D) (l : list (bytes * N * D)) : option (dir D) :=
+    match l with
+    | [] => Some files
+    | (p, i, d) :: r =>
+      let fn := path_base p in
+      if bad_name fn then None
+      else if i =? 0 then replay_p (fset fn d files) r
+      else match alookup bytes_eqb fn files with
+           | None => None
+           | Some old => replay_p (fset fn (dapp old d) files) r
+           end
+    end.
+  Lemma replay_proj : forall (l : list chunk) files, replay D dapp files l = replay_p files (map proj l).
+  Proof.
+    induction l as [|[m d] l IH]; intro files; simpl; auto.
+    destruct (bad_name (path_base (c_path m))); auto.
+    destruct (c_fcid m =? 0); auto.
+    destruct (alookup bytes_eqb (path_base (c_path m)) files); auto.
+  Qed.
+  Lemma replay_p_app : forall l1 l2 files,
+      replay_p files (l1 ++ l2) = match replay_p files l1 with Some f1 => replay_p f1 l2 | None => None end.
+  Proof.
+    induction l1 as [|[[p i] d] l1 IH]; intros l2 files; simpl; auto.
+    destruct (bad_name (path_base p)); auto. destruct (i =? 0); auto.
+    destruct (alookup bytes_eqb (path_base p) files); auto.
+  Qed.
+
+  (* the ideal chunks of one file *)
+  Definition ideal (path : bytes) (f : D) (fsize : N) (k : nat) : bytes * N * D :=
+    let i := N.of_nat k in
+    (path, i, dsub f (i * cs) (if i =? chunk_count cs fsize - 1 then fsize - (chunk_count cs fsize - 1) * cs else cs)).
+
+  Lemma seq_replay : forall path f fsize, 0 < fsize -> fsize <= dlen f ->
+      bad_name (path_base path) = false ->
+      forall len s files, (s + len = N.to_nat (chunk_count cs fsize))%nat -> (0 < s)%nat ->
+        alookup bytes_eqb (path_base path) files = Some (dsub f 0 (N.min (N.of_nat s * cs) fsize)) ->
+        replay_p files (map (ideal path f fsize) (seq s len)) = Some (fset (path_base path) (dsub f 0 fsize) files).
+  Proof.
+    intros path f fsize Hf Hle Hb.
+    set (q := (fsize - 1) / cs).
+    assert (Hcc : chunk_count cs fsize = q + 1) by reflexivity.
+    assert (Hq : q * cs <= fsize - 1 /\ fsize - 1 < (q + 1) * cs) by (unfold q; nia).
+    induction len as [|len IH]; intros s files Hs Hs0 Hl.
+    - simpl. rewrite N.min_r in Hl by (rewrite Hcc in Hs; nia).
+      unfold fset. rewrite aset_same_id; auto.
+    - assert (Hsq : N.of_nat s <= q) by (rewrite Hcc in Hs; lia).
+      simpl seq. simpl map. unfold ideal at 1. simpl replay_p. rewrite Hb.
+      assert (Hn0 : N.of_nat s =? 0 = false) by (apply N.eqb_neq; lia).
+      rewrite Hn0, Hl.
+      rewrite N.min_l by nia.
+      set (sz := if N.of_nat s =? chunk_count cs fsize - 1 then fsize - (chunk_count cs fsize - 1) * cs else cs).
+      assert (Hsz : N.of_nat s * cs + sz = N.min (N.of_nat (S s) * cs) fsize).
+      { unfold sz. destruct (N.of_nat s =? chunk_count cs fsize - 1) eqn:E.
+        - apply N.eqb_eq in E. rewrite N.min_r by nia. nia.
+        - apply N.eqb_neq in E. rewrite N.min_l by nia. nia. }
+      replace (dapp (dsub f 0 (N.of_nat s * cs)) (dsub f (N.of_nat s * cs) sz))
+        with (dsub f 0 (N.min (N.of_nat (S s) * cs) fsize)).
+      + rewrite (IH (S s)).
+        * unfold fset. rewrite aset_aset. reflexivity.
+        * lia.
+        * lia.
+        * unfold fset. apply alookup_aset_same. exact bytes_eqb_eq.
+      + rewrite <- Hsz. symmetry.
+        replace (N.of_nat s * cs) with (0 + N.of_nat s * cs) at 2 by lia.
+        apply dsub_app. pose proof (N.le_min_r (N.of_nat (S s) * cs) fsize). lia.
+  Qed.
+
+  Lemma file_replay : forall path f fsize files, 0 < fsize -> fsize <= dlen f ->
+      bad_name (path_base path) = false ->
+      replay_p files (map (ideal path f fsize) (seq 0 (N.to_nat (chunk_count cs fsize)))) =
+      Some (fset (path_base path) (dsub f 0 fsize) files).
+  Proof.
+    intros path f fsize files Hf Hle Hb.
+    set (q := (fsize - 1) / cs).
+    assert (Hcc : chunk_count cs fsize = q + 1) by reflexivity.
+    assert (Hq : q * cs <= fsize - 1 /\ fsize - 1 < (q + 1) * cs) by (unfold q; nia).
+    assert (Hd0 : ideal path f fsize 0 = (path, 0, dsub f 0 (N.min (N.of_nat 1 * cs) fsize))).
+    { unfold ideal. change (N.of_nat 0) with 0. rewrite N.mul_0_l. f_equal. f_equal.
+      change (N.of_nat 1) with 1. rewrite N.mul_1_l.
+      destruct (0 =? chunk_count cs fsize - 1) eqn:E0.
+      - apply N.eqb_eq in E0. assert (Hq0 : q = 0) by lia. rewrite Hq0 in Hq.
+        rewrite N.min_r by lia. rewrite <- E0. lia.
+      - apply N.eqb_neq in E0. assert (Hq1 : 1 <= q) by lia. rewrite N.min_l by nia. reflexivity. }
+    destruct (N.to_nat (chunk_count cs fsize)) as [|len] eqn:E; [lia|].
+    change (seq 0 (S len)) with (0%nat :: seq 1 len). rewrite map_cons, Hd0.
+    simpl replay_p. rewrite Hb.
+    rewrite (seq_replay path f fsize Hf Hle Hb len 1%nat).
+    - unfold fset. rewrite aset_aset. reflexivity.
+    - lia.
+    - lia.
+    - unfold fset. apply alookup_aset_same. exact bytes_eqb_eq.
+  Qed.
+End FileBytes.
